@@ -34,7 +34,8 @@ CONSTANTS NNode,      \* nodes of database "1" are 0..NNode-1
           MaxOps,     \* bound on operations of a behaviour
           WeakAdds,   \* TRUE = the code as it is: pickling a weak reference to an object without oid
                       \*        gives it an oid and queues it for storing (comment in persistent_id)
-          NCand, CandSize   \* simulation only: number / expected size of candidate edge sets
+          NCand, CandSize,  \* simulation only: number / expected size of candidate edge sets
+          Lifecycle   \* TRUE: the life-cycle actions of the loading connection B are part of Next
 
 VARIABLES kinds,      \* class kind of every node: "plain" | "newargs" | "gone" | "gonenew"
           cand,       \* <<src, edge>> pairs AddEdge may choose from (all of them when model checking)
@@ -45,10 +46,11 @@ VARIABLES kinds,      \* class kind of every node: "plain" | "newargs" | "gone" 
           stored,     \* database "1": node -> [p |-> record present, e |-> edges in the record]
           packed,     \* a pack with gc ran: connection A is not used any more
           ops, commits,
-          res,        \* the last operation
+          bconn,      \* the loading connection B of database "1" (pooled): [st, gen, hgen, pend]
+          res,        \* the last operation (and what the replay must observe about B)
           obs         \* derived: ObsOf(kinds, stored)
 
-vars == <<kinds, cand, mem, hasOid, added, dirty, stored, packed, ops, commits, res, obs>>
+vars == <<kinds, cand, mem, hasOid, added, dirty, stored, packed, ops, commits, bconn, res, obs>>
 
 Nodes == 0..(NNode - 1)
 Root == 0
@@ -119,13 +121,37 @@ ObsOf(k, st) ==
 (* ------------------------------ initial states -------------------------- *)
 Empty == [n \in Nodes |-> {}]
 Store0 == [n \in Nodes |-> IF n = Root THEN Rec({}) ELSE Absent]
-Op(name) == [op |-> name, out |-> "ok"]
+BRes(name, reused, same, fresh) == [op |-> name, out |-> "ok", reused |-> reused, same |-> same, fresh |-> fresh]
+Op(name) == BRes(name, FALSE, FALSE, FALSE)
+
+(* ------------- the loading connection B through its life-cycle ---------- *)
+\* st   "none" (never opened) | "open" | "closed" (in the pool of the database)
+\* gen  generation of its object cache: Connection.open() of a pooled connection calls _resetCache() when
+\*      ZODB.Connection.resetCaches() ran since the connection last looked (pend)
+\* hgen generation in which the objects the application still holds (from the last traversal) were obtained
+\* One in-memory object per oid per connection, over the life-cycle: as long as the cache generation is the
+\* same, every path to an oid (reference from any referrer, get(oid), root()) gives the object handed out
+\* before - across close / re-open from the pool, deactivation, abort, invalidation.
+B0 == [st |-> "none", gen |-> 0, hgen |-> -1, pend |-> FALSE]
+OpenedB(b) == IF b.st = "open" THEN b
+              ELSE [b EXCEPT !.st = "open", !.pend = FALSE,
+                             !.gen = IF b.st = "closed" /\ b.pend THEN @ + 1 ELSE @]
+\* reused: db.open() must hand back the pooled connection; same: the held objects are still THE objects;
+\* fresh: the traversal starts on a cache that was reset
+BStep(op, b) ==
+  CASE op = "LoadElsewhere" ->
+         LET o == OpenedB(b) IN [b |-> [o EXCEPT !.hgen = o.gen],
+                                 res |-> BRes(op, b.st # "none", o.hgen = o.gen, o.gen # b.gen)]
+    [] op = "CloseB" -> [b |-> [b EXCEPT !.st = "closed"], res |-> Op(op)]
+    [] op = "ResetCaches" -> [b |-> [b EXCEPT !.pend = TRUE], res |-> Op(op)]
+    [] OTHER -> [b |-> b, res |-> Op(op)]        \* MinimizeAllB, MinimizeSomeB, AbortB: nothing may change
 
 InitWith(k, c, m, ad) ==
   /\ kinds = k /\ cand = c /\ mem = m
   /\ added = ad /\ hasOid = {Root} \cup ad
   /\ dirty = IF m[Root] = {} THEN {} ELSE {Root}
   /\ stored = Store0 /\ packed = FALSE /\ ops = 0 /\ commits = 0
+  /\ bconn = B0
   /\ res = Op("init")
   /\ obs = ObsOf(k, Store0)
 
@@ -158,7 +184,7 @@ AddEdge(s, d, k, h) ==
   /\ mem' = [mem EXCEPT ![s] = @ \cup {e}]
   /\ dirty' = Touch(s)
   /\ Step("AddEdge")
-  /\ UNCHANGED <<kinds, cand, hasOid, added, stored, packed, commits, obs>>
+  /\ UNCHANGED <<kinds, cand, hasOid, added, stored, packed, commits, bconn, obs>>
 
 RemoveEdge(s, d, k, h) ==
   LET e == [dst |-> d, kind |-> k, holder |-> h] IN
@@ -166,14 +192,14 @@ RemoveEdge(s, d, k, h) ==
   /\ mem' = [mem EXCEPT ![s] = @ \ {e}]
   /\ dirty' = Touch(s)
   /\ Step("RemoveEdge")
-  /\ UNCHANGED <<kinds, cand, hasOid, added, stored, packed, commits, obs>>
+  /\ UNCHANGED <<kinds, cand, hasOid, added, stored, packed, commits, bconn, obs>>
 
 \* connection.add(obj): oid and jar at once, stored by the next commit whether reachable or not
 ExplicitAdd(n) ==
   /\ Editing /\ n \notin hasOid
   /\ hasOid' = hasOid \cup {n} /\ added' = added \cup {n}
   /\ Step("ExplicitAdd")
-  /\ UNCHANGED <<kinds, cand, mem, dirty, stored, packed, commits, obs>>
+  /\ UNCHANGED <<kinds, cand, mem, dirty, stored, packed, commits, bconn, obs>>
 
 CommitSet == Closure(mem, hasOid, dirty \cup added)
 Commit ==
@@ -186,13 +212,26 @@ Commit ==
   /\ dirty' = {} /\ added' = {}
   /\ commits' = commits + 1
   /\ Step("Commit")
-  /\ UNCHANGED <<kinds, cand, mem, packed>>
+  /\ UNCHANGED <<kinds, cand, mem, packed, bconn>>
 
 \* a second connection (and its sibling in database "2") loads everything: judged against obs
+\* B is opened if it is not open (from the pool once it exists), else brought to a new transaction; it stays open
+GraphVars == <<kinds, cand, mem, hasOid, added, dirty, stored, packed, commits, obs>>
+BAction(op) == /\ ops' = ops + 1
+               /\ bconn' = BStep(op, bconn).b /\ res' = BStep(op, bconn).res
+               /\ UNCHANGED GraphVars
 LoadElsewhere ==
   /\ ops < MaxOps + 2 /\ res.op # "LoadElsewhere"
-  /\ Step("LoadElsewhere")
-  /\ UNCHANGED <<kinds, cand, mem, hasOid, added, dirty, stored, packed, commits, obs>>
+  /\ BAction("LoadElsewhere")
+
+\* life-cycle of B between two traversals
+BIdle == Lifecycle /\ ops < MaxOps + 2 /\ res.op \notin {"MinimizeAllB", "MinimizeSomeB", "AbortB"}
+MinimizeAllB == BIdle /\ bconn.st = "open" /\ BAction("MinimizeAllB")      \* connection.cacheMinimize()
+MinimizeSomeB == BIdle /\ bconn.st = "open" /\ BAction("MinimizeSomeB")    \* _p_deactivate() of some held objects
+AbortB == BIdle /\ bconn.st = "open" /\ BAction("AbortB")                  \* transaction abort in B
+CloseB == Lifecycle /\ ops < MaxOps + 2 /\ bconn.st = "open" /\ BAction("CloseB")
+\* global ZODB.Connection.resetCaches(): takes effect when a pooled connection is opened again
+ResetCaches == Lifecycle /\ ops < MaxOps + 2 /\ ~bconn.pend /\ bconn.st # "none" /\ BAction("ResetCaches")
 
 \* storage.pack(now, referencesf) with garbage collection, then nothing but loading
 Pack ==
@@ -201,22 +240,30 @@ Pack ==
   /\ stored' = PackedStore(kinds, stored)
   /\ obs' = ObsOf(kinds, stored')
   /\ Step("Pack")
-  /\ UNCHANGED <<kinds, cand, mem, hasOid, added, dirty, commits>>
+  /\ UNCHANGED <<kinds, cand, mem, hasOid, added, dirty, commits, bconn>>
 
 Next == \/ \E s \in Nodes, d \in Targets, k \in {"strong", "weak"}, h \in Holders : AddEdge(s, d, k, h)
         \/ \E s \in Nodes, d \in Targets, k \in {"strong", "weak"}, h \in Holders : RemoveEdge(s, d, k, h)
         \/ \E n \in Nodes : ExplicitAdd(n)
         \/ Commit
         \/ LoadElsewhere
+        \/ MinimizeAllB \/ MinimizeSomeB \/ AbortB \/ CloseB \/ ResetCaches
         \/ Pack
 
-\* all small graphs: commit, load, pack, load (the whole case is printed by the Commit step)
+\* all small graphs: commit, then B through its life-cycle with a traversal at every stage, pack, traversal
+\* (the whole case is printed by the Commit step; the B part by folding BStep over the script)
+GraphScript == <<"LoadElsewhere", "MinimizeAllB", "LoadElsewhere", "ResetCaches", "CloseB", "LoadElsewhere",
+                 "Pack", "LoadElsewhere">>
+RECURSIVE RunScript(_, _, _)
+RunScript(sc, i, b) == IF i > Len(sc) THEN <<>>
+                       ELSE LET r == BStep(sc[i], b) IN <<[op |-> sc[i], b |-> r.b, res |-> r.res]>> \o RunScript(sc, i + 1, r.b)
 CommitPrinted ==
   /\ commits = 0
   /\ Commit
   /\ PrintT(<<"GRAPH", [kinds |-> kinds, mem |-> mem, added |-> added, dirty |-> dirty, hasOid |-> hasOid],
               [stored |-> stored', hasOid |-> hasOid', obs |-> obs'],
-              [stored |-> PackedStore(kinds, stored'), obs |-> ObsOf(kinds, PackedStore(kinds, stored'))]>>)
+              [stored |-> PackedStore(kinds, stored'), obs |-> ObsOf(kinds, PackedStore(kinds, stored'))],
+              RunScript(GraphScript, 1, bconn)>>)
 NextGraphs == CommitPrinted \/ (commits > 0 /\ Pack)
 
 (* -------------------------------- properties ---------------------------- *)
@@ -269,5 +316,11 @@ CommitTouchesOnlyClosure ==
 \* nothing but a commit or a pack changes the database
 OnlyCommitAndPackStore == [][stored' # stored => (IsCommit \/ packed' # packed)]_vars
 
-View == <<kinds, cand, mem, hasOid, added, dirty, stored, packed, ops, commits, res>>
+BOK == /\ bconn.hgen <= bconn.gen /\ bconn.st \in {"none", "open", "closed"}
+       /\ (bconn.st = "none" => bconn = B0)
+       /\ (res.op = "LoadElsewhere" => bconn.st = "open" /\ bconn.hgen = bconn.gen /\ (res.fresh => ~res.same))
+\* held objects stay valid unless a reset cache generation intervened
+SameUnlessReset == [][(res'.op = "LoadElsewhere" /\ bconn.hgen >= 0) => (res'.same <=> bconn'.gen = bconn.hgen)]_vars
+
+View == <<kinds, cand, mem, hasOid, added, dirty, stored, packed, ops, commits, bconn, res>>
 =============================================================================
